@@ -50,10 +50,13 @@ def _work(task):
             fn_props = lem.props
         out = dict(kind=kind, name=name, status=rep.status, detail=rep.detail, paths=rep.paths, obligations=[],
                    inlined=sorted(rep.inlined), used_contracts=sorted(rep.used_contracts), props=list(fn_props),
-                   trusted_facts=sorted(rep.trusted_facts))
+                   trusted_facts=sorted(rep.trusted_facts), shard=task.get('shard'))
         gen_time = time.time() - t0
         seen = {}
-        for ob in rep.obligations:
+        shard = task.get('shard')
+        for oi, ob in enumerate(rep.obligations):
+            if shard is not None and oi % shard[1] != shard[0]:
+                continue
             r = solve.discharge(ob, timeout_s)
             rec = dict(id=ob.id, kind=ob.kind, label=ob.label, props=sorted(effective_props(ob, fn_props)), line=ob.line,
                        note=ob.note, expect=ob.expect, verdict=r['verdict'], backend=r['backend'], time=round(r['time'], 4),
